@@ -168,12 +168,12 @@ class Check:
         print('%s %s: %d/%d obligations discharged, %d violation(s), %d undecided, %.1fs' % (
             self.prop, self.tier, self.discharged, self.obligations, len(self.violations),
             len(self.undecided), wall))
+        for e in self.errors:
+            print('ERROR %s' % e)
+        if self.violations and (not self.errors or any(v['confirmed'] for v in self.violations)):
+            return EXIT_VIOLATION          # a violation confirmed on the real code stands even if another part of the check crashed
         if self.errors:
-            for e in self.errors:
-                print('ERROR %s' % e)
             return EXIT_ERROR
-        if self.violations:
-            return EXIT_VIOLATION
         if self.undecided:
             for u in self.undecided[:20]:
                 print('UNDECIDED %s' % u)
